@@ -688,6 +688,13 @@ func (idx *indexer) indexSince(txID uint64) error {
 						return err
 					}
 
+					if prevMD := prevEntry.Metadata(); prevMD != nil && prevMD.Deleted() {
+						// the previous version is a tombstone: its mapped key was tombstoned when
+						// it was indexed. Its value must not be needed here: after a value-log
+						// truncation it may be gone, and the index would fail with EOF forever
+						continue
+					}
+
 					targetPrevKey, err := idx.mapKey(sourceKey, prevEntry.vLen, prevEntry.vOff, prevEntry.hVal, idx.spec.TargetEntryMapper)
 					if err != nil {
 						return err
